@@ -49,6 +49,10 @@ def _do_chunked_reproject(
     if dtype is None:
         dtype = ba.dtype
 
+    if dst_nodata is None and src_nodata is None and np.dtype(dtype).kind == "f":
+        # same as the in-memory path: pixels not reached in a partially covered chunk are NaN
+        dst_nodata = np.nan
+
     dst_shape = ba.with_yx(ba.shape, dst_gbox.shape)
     dst = np.zeros(dst_shape, dtype=dtype)
 
